@@ -57,7 +57,12 @@ SPEC = {
         # a call cycle satisfying the hypotheses, and the seeded memoising DFS (Model/MemoDfs.lean) order dependent on one
         "usage_recurse_shape_as_modelled", "usage_fixpoint_total_and_order_independent",
         "usage_fixpoint_order_independent_on_cycle", "memo_dfs_order_dependent_on_cycle",
-        "memo_dfs_set_order_dependent_on_cycle"]] + [
+        "memo_dfs_set_order_dependent_on_cycle",
+        # several KINDS of implicit parameters in one closed usage set (lane index / lane count / mesh output / globals):
+        # order independence for every program and set, an instance with the regenerated variant order and intrinsic
+        # table, and the self-mutation `sort the globals only` order dependent exactly when two built-in kinds meet
+        "required_kinds_order_independent", "required_kinds_instance", "globals_only_sort_order_dependent",
+        "sortGlobalsOnly_eq_on_globals"]] + [
         "RsslVerif.Lemmas.EnumRange.foldl_perm_of_invariant",
         # the two non-trivial sites are proved order independent over the models of the code itself
         "RsslVerif.Thm.C02.closure_order_independent",      # usage-analysis fixpoint (recurse) vs key iteration order;
@@ -85,7 +90,15 @@ SPEC = {
             "and through helper chains of depth 1-3, sometimes a helper chain of depth 9-24, static globals initialised by a call "
             "of a helper or of a cycle member, 1-2 entry points) x 4 targets (Metal shows the closed usage sets as implicit "
             "parameter lists and is_used; the HLSL targets are the control), each compiled 8 times in one process and once in each "
-            "of 3 fresh processes, a failure quotes the first differing emitted line and the program; rejected programs: 116 generated families "
+            "of 3 fresh processes, a failure quotes the first differing emitted line and the program; programs whose functions need SEVERAL "
+            "KINDS of implicit parameters on Metal (wave:<seed>, 30 quick / 300 thorough + 11 corpus entries: 3-9 helpers reading "
+            "WaveGetLaneIndex / WaveGetLaneCount, 3-6 globals of 7 kinds, calls of earlier helpers, default arguments on the "
+            "definition that read a lane intrinsic and a global, helpers in namespaces, static globals initialised from a lane "
+            "intrinsic or a helper call, compute pipelines, mesh + pixel pipelines with SetMeshOutputCounts in helpers, task + mesh "
+            "+ pixel pipelines with DispatchMesh in the task shader or a helper of it) x 4 "
+            "targets, 8 + 3 compilations each; rejected programs: 119 generated families (3 of them reject through the "
+            "CONFIGURATION: 3-6 invalid client defines after well-formed and repeated ones, no file under the entry name, "
+            "well-formed defines that make the source ill-formed in 3-6 places; a failure quotes the define list) "
             "with >= 3 interchangeable offenders each (lexer, preprocessor, parser, 99 of 109 TyperError variants incl. enum "
             "range / conflicts, overload ambiguity with candidate lists, redefinitions, and every rejection introduced by fix batches 2 and 3 (enum value named like a namespace, swizzles "
             "of more than four components, Metal remainder assignments whose target or right operand writes); "
@@ -122,7 +135,13 @@ SPEC = {
                   "nothing excludes call cycles (usage_fixpoint_total_and_order_independent; "
                   "usage_fixpoint_order_independent_on_cycle instantiates it on a 2-cycle and shows each member ends with "
                   "the other member's global); the seeded single-pass memoising DFS is transcribed (Model/MemoDfs.lean) and "
-                  "proved to depend on the key order and on the set order on a table with a 2-cycle. History "
+                  "proved to depend on the key order and on the set order on a table with a 2-cycle. The implicit parameter list "
+                  "of a Metal function (analyse_globals: one entry per global, lane intrinsic and mesh intrinsic of the closed "
+                  "usage set, then sort()): for EVERY program and every two walks of a set, whatever kinds it mixes, the "
+                  "sorted lists are equal (required_kinds_order_independent over the C02 transcription, whose variant order "
+                  "and intrinsic table are regenerated); required_kinds_instance evaluates it on a set with both lane "
+                  "intrinsics, the mesh intrinsic and two globals; the self-mutation `sort the globals only` is transcribed "
+                  "and proved order dependent on such a set and equal to the real sort on lists of globals only. History "
                   "independence: a process whose step never reads process-wide state gives every request, after any history "
                   "and in any permutation, its fresh-process result (proved for all step functions, Model/History.lean); the "
                   "regenerated inventory Gen.GlobalState proves the premise about the source: no `static` item at all, no "
@@ -159,7 +178,11 @@ SPEC = {
         "is the C15 model); the step from `no static state in the source` to `the step function does not read state` is the "
         "language guarantee of safe Rust (assumption below), not a theorem",
     ],
-    "assumptions": ["single-threaded safe Rust has no other source of nondeterminism than hash iteration order",
+    "assumptions": ["covered by the correspondence run and its oracle only (no Lean transcription): the handling of client defines and "
+                    "of the entry file name in preprocess/src/preprocess.rs (no hash container is walked there: file_name_remap, "
+                    "real_name_remap and pragma_once_files are only read by key - inventory Gen.HashSites), the entry point's "
+                    "attribute parameters for the lane kinds in msl/src/generator/pipeline.rs (a walk over the already sorted Vec)",
+                    "single-threaded safe Rust has no other source of nondeterminism than hash iteration order",
                     "safe Rust without `static` items, thread locals, leaks and ambient reads cannot carry information from one "
                     "call of `compile` to the next except through its arguments (the include handler is the caller's)"],
 }
